@@ -94,9 +94,9 @@ def _run_child(item):
 _flat = jitdiff.flat
 
 # rounding-level differences are amplified by the conditioning of the call; the
-# interpreted child measures it (max response to <=4-ulp input perturbations, per
+# interpreted child measures it (max response to <=32-ulp input perturbations, per
 # returned leaf) and SENS_FACTOR x that is allowed on top of TOL x scale.
-SENS_FACTOR = 64.0
+SENS_FACTOR = 8.0
 
 
 def compare(py, jit, sens=None):
@@ -248,7 +248,9 @@ def run(ck):
                     continue
                 n_prog += 1
                 compile_times[fq] = round(rj["t_first"] or 0.0, 2)
-                if kinds[fq] == "func":
+                if kinds[fq] == "probe":
+                    ck.hit("composition_probe_exercised")
+                elif kinds[fq] == "func":
                     if rj.get("nopython"):
                         ck.hit("compiled_nopython")
                     elif not any(r[0][0] == "compile_error" for r in rj["results"]):
